@@ -818,12 +818,12 @@ class FuncEmitter:
                 idxs = [(ev[1] if ev[0] == 'int' else None) for (et, ev) in mv[1]]
             for i, ix in enumerate(idxs):
                 if ix is None:
-                    e = self.undef(m.resolve(vt[2]))
+                    e = self.undef(m.resolve(vt[2]), 'Q')
                 elif ix < n:
                     e = '%s.e[%d]' % (a, ix)
                 else:
                     if b is None:
-                        e = self.undef(m.resolve(vt[2]))
+                        e = self.undef(m.resolve(vt[2]), 'Q')
                     else:
                         e = '%s.e[%d]' % (b, ix - n)
                 self.out.append('%s.e[%d] = %s;' % (self.lname(ins.res), i, e))
@@ -1038,6 +1038,47 @@ class FuncEmitter:
             fn = cn + ('f' if mm.group(2) == 'f32' else '')
             self.ctx.used_ext.add(('libm', fn))
             self.assign(ins.res, 'LL2C_LIBM_%s(%s)' % (fn, ', '.join(A)))
+            return
+        # horizontal integer reductions: llvm.vector.reduce.or.v4i32 etc. (add/mul wrap: low n bits of the u64 result are exact)
+        mm = re.match(r'^llvm\.vector\.reduce\.(or|and|xor|add|mul)\.v(\d+)i(\d+)$', name)
+        if mm:
+            opn, lanes, n = mm.group(1), int(mm.group(2)), int(mm.group(3))
+            if n > 64:
+                raise Unsupported(name)
+            ta = self.mat(A[0], m.resolve(args[0][0]))
+            c = {'or': '|', 'and': '&', 'xor': '^', 'add': '+', 'mul': '*'}[opn]
+            self.assign(ins.res, self.trunc_to((' %s ' % c).join('(u64)%s.e[%d]' % (ta, i) for i in range(lanes)), n))
+            return
+        # element-wise integer intrinsics on vectors: llvm.abs.v4i32 etc. (same formulas as the scalar case below)
+        mm = re.match(r'^llvm\.(abs|smax|smin|umax|umin|ctpop|ctlz|cttz)\.v(\d+)i(\d+)$', name)
+        if mm:
+            opn, lanes, n = mm.group(1), int(mm.group(2)), int(mm.group(3))
+            if n > 64:
+                raise Unsupported(name)
+            T = 'u%d' % cwidth(n)
+            vty = m.resolve(args[0][0])
+            ta = self.mat(A[0], vty)
+            tb = self.mat(A[1], vty) if opn in ('smax', 'smin', 'umax', 'umin') else None
+            for i in range(lanes):
+                a = '%s.e[%d]' % (ta, i)
+                if opn == 'abs':
+                    sa = self.sext(a, n)
+                    e = self.trunc_to('(u64)(%s < 0 ? -(s64)%s : (s64)%s)' % (sa, sa, sa), n)
+                    if args[1][1] == ('int', 1):
+                        e = 'LL2C_POISON(%s, %s == %s, %s)' % (T, a, ulit(1 << (n - 1), n), e)
+                elif opn == 'ctpop':
+                    e = '(%s)ll2c_ctpop(%s)' % (T, a)
+                elif opn in ('ctlz', 'cttz'):
+                    e = '(%s)ll2c_%s(%s, %d)' % (T, opn, a, n)
+                    if args[1][1] == ('int', 1):
+                        e = 'LL2C_POISON(%s, %s == 0, %s)' % (T, a, e)
+                else:
+                    b = '%s.e[%d]' % (tb, i)
+                    if opn in ('smax', 'smin'):
+                        e = '(%s %s %s ? %s : %s)' % (self.sext(a, n), '>' if opn == 'smax' else '<', self.sext(b, n), a, b)
+                    else:
+                        e = '(%s %s %s ? %s : %s)' % (a, '>' if opn == 'umax' else '<', b, a, b)
+                self.out.append('%s.e[%d] = %s;' % (self.lname(ins.res), i, e))
             return
         mm = re.match(r'^llvm\.(ctpop|ctlz|cttz|bswap|bitreverse|abs|smax|smin|umax|umin|fshl|fshr|'
                       r'uadd\.sat|usub\.sat|sadd\.sat|ssub\.sat)\.i(\d+)$', name)
